@@ -26,7 +26,7 @@ CLAIMS = {
             "against the real PipelineRuntimeStatus, lock-step executor scenarios; `check_C02` (moves follow the table, counts, disjoint live "
             "containers) on every implementation trace.",
             "Props/C02.lean, Proofs/Live.lean, Proofs/Built.lean; the live-container theorem assumes the tick succeeds and every operator has at least one segment"),
-    "C03": ("Lean theorems on the pool model (conservation of CPU and RAM over active + suspending containers, non-negativity, whole-batch rejection; an allocation is returned in the tick the container completes: in every ready world a container that holds an allocation as a running container has an operator left - `running_containers_have_work_left`, the clause `returned-when-finished` of the checker); "
+    "C03": ("Lean theorems on the pool model (conservation of CPU and RAM over active + suspending containers, non-negativity, whole-batch rejection; an allocation is returned in the tick the container completes: in every ready world a container that holds an allocation as a running container has an operator left - `running_containers_have_work_left`, the clause `returned-when-finished` of the checker; and for full simulations: conservation on every tick of every run of priority (with pre-emption), priority-pool and overbook from every fresh world - corollaries of the whole-run invariants); "
             "tie: lock-step of the real Executor on directed sequences (overselling batches, suspensions run to their end, kills); `check_C03` on every "
             "implementation trace.", "Props/C03.lean"),
     "C04": ("Lean theorems on the pool model (after the OOM killer every running container is within its allocation; reported usage = sum over running "
@@ -92,7 +92,10 @@ CLAIMS.update({
             "at the assigned CPU count, every operator at least one tick); (2) `Container.tick` consumes exactly one demand per tick: above the allocation the container stops holding "
             "that demand (OOM at the first excess, not before), otherwise it holds the demand, the operator index advances exactly at an operator's last demand and the container is "
             "complete exactly when none is left; (3) by induction over ticks, after n fitting ticks exactly the first n demands are consumed, so completion happens at the summed tick "
-            "count, neither earlier nor later; plus the segment formulas, law divisors and their monotonicity, CPU time antitone in CPUs, flat beyond each law's bound, memory profile. "
+            "count, neither earlier nor later; (4) the specification's summary record is what the container does: memory held after each tick, the end tick, the verdict (success / "
+            "out-of-memory stop) and the number of operators completed at the end (`specification_summary_is_what_the_container_does`, "
+            "`specification_completed_operators_is_the_containers_operator_index`), and after every tick the operator index is the operator of the next documented demand; "
+            "plus the segment formulas, law divisors and their monotonicity, CPU time antitone in CPUs, flat beyond each law's bound, memory profile. "
             "Tie: thousands of single-container runs of the real code against the specification, exact on the binary-exact lattice, either-side only at flagged float boundaries on "
             "decimal tick rates; the (law, cpus 1..128) grid of the real scaling functions.", "Props/C05.lean, Proofs/Profile.lean; sqrt/log laws via integer sqrt and an enclosure table"),
     "C08": ("PARTIAL (the whole-run clause is a theorem for every shipped scheduler in every container mode except priority-pool with single-operator containers, where it is false for the shipped code: known finding D11; the theorems start from a world whose pipelines are already registered, and amounts are integers of the quantum lattice). Lean theorems: (1) EXECUTION NEVER GETS STUCK: on consistent containers (head operator RUNNING once started, the rest ASSIGNED, "
